@@ -19,7 +19,7 @@ RULE = ('case = (set of task full names over confusable segment alphabets, query
         'strict (segment-boundary suffix) and liberal (component-wise suffix) readings; non-trivial = query has >=2 '
         'structural matches, or exactly one match via a shortened form while a textually confusable other name '
         '(prefix/suffix related segment) is present; distinct = hash(sorted name set, query)')
-REQUIRED = ['fn_queries', 'multi_match_queries', 'must_raise_ambiguous', 'winner_required', 'chain_queries',
+REQUIRED = ['fn_queries', 'short_form_inputs_bound', 'multi_match_queries', 'must_raise_ambiguous', 'winner_required', 'chain_queries',
             'input_registry_queries', 'permutations_checked']
 ASSUMPTIONS = ['"shorter form" = the whole namespace and/or the whole group path dropped (partial namespace/group paths '
                'must not match)',
@@ -177,7 +177,7 @@ def check_set(names, rng, res: CaseResult, perm_limit=24, where='fn'):
 
 # ---- through real chains ------------------------------------------------------------------------------------------
 
-def build_chain(names, tmp, with_consumer=True):
+def build_chain(names, tmp, with_consumer=True, short_inputs=None):
     """Real chain whose task full names are exactly `names` (+ a consumer that has all of them as inputs)."""
     from taskchain import Config, Task
     from taskchain.data import JSONData  # noqa
@@ -207,6 +207,13 @@ def build_chain(names, tmp, with_consumer=True):
     def mkconf(ns):
         children = sorted(c for c in all_ns if len(c) == len(ns) + 1 and c[:len(ns)] == ns)
         data = {'tasks': list(by_ns.get(ns, [])), 'uses': [mkconf(c) for c in children], 'p': '::'.join(ns)}
+        if short_inputs and short_inputs.get(ns):
+            # a dependant in this namespace that names its inputs by short forms (relative to its own namespace)
+            smeta = type('Meta', (), {'name': 'zz_short', 'input_tasks': list(short_inputs[ns])})
+
+            def srun(self) -> int:
+                return 0
+            data['tasks'] = data['tasks'] + [type('ShortConsumer', (Task,), {'Meta': smeta, 'run': srun, '__module__': __name__})]
         return Config(tmp, name='c_' + '_'.join(ns) if ns else 'root', namespace=ns[-1] if ns else None, data=data)
 
     root = mkconf(())
@@ -222,8 +229,47 @@ def build_chain(names, tmp, with_consumer=True):
 def check_chain(names, rng, res: CaseResult):
     tmp = tempfile.mkdtemp(prefix='c10-')
     try:
+        # dependants with short-form inputs: per namespace, for some tasks declared exactly there, a form without the group that the rule
+        # resolves to that task among the tasks of this namespace (inputs are looked up in the dependant's own namespace)
+        short_inputs, short_expect = {}, {}
+        by_ns_names = {}
+        for n in names:
+            by_ns_names.setdefault(parse(n)[0], []).append(n)
+        for ns, members in by_ns_names.items():
+            rel = [fmt((), parse(n)[1], parse(n)[2]) for n in members]
+            chosen, targets = [], set()
+            for r in rng.sample(rel, len(rel)):
+                q = rng.choice([parse(r)[2], parse(r)[2], r])
+                exp, _ = oracle(q, rel)
+                if exp[0] == 'return' and exp[1] not in targets and q not in chosen:
+                    chosen.append(q)
+                    targets.add(exp[1])
+                    short_expect[(ns, q)] = fmt(ns, *parse(exp[1])[1:])
+            if chosen and rng.random() < 0.8:
+                short_inputs[ns] = chosen
+        short_ok = False
+        if short_inputs:
+            try:
+                chain_s = build_chain(names, tmp, short_inputs=short_inputs)
+                short_ok = True
+            except Exception as e:
+                res.violate(f'chain with tasks {sorted(names)}: dependants declaring inputs by short forms {short_inputs} (each resolving uniquely in the '
+                            f'dependant\'s namespace) cannot be constructed: {type(e).__name__}: {e}', witness={'names': names, 'short_inputs': {"::".join(k): v for k, v in short_inputs.items()}})
+        if short_ok:
+            for ns, qs in short_inputs.items():
+                dep = chain_s.tasks[fmt(ns, (), 'zz_short')]
+                for q, bound in zip(qs, dep.input_tasks.task_list):
+                    res.count('short_form_inputs_bound')
+                    want = chain_s.tasks[short_expect[(ns, q)]]
+                    if bound is not want:
+                        res.violate(f'dependant in namespace `{"::".join(ns)}` of chain {sorted(names)}: input `{q}` was bound to {bound}, expected {short_expect[(ns, q)]}',
+                                    witness={'names': names, 'ns': list(ns), 'input': q})
         try:
-            chain = build_chain(names, tmp)
+            chain = chain_s if short_ok else build_chain(names, tmp)
+            if short_ok:
+                # drop the short dependants from the universe of names (they are extra tasks of the same chain: queries below run AFTER their inputs
+                # were resolved, on the same chain object)
+                pass
             consumer = chain.tasks['zz_consumer']
         except Exception as e:
             # construction itself resolves the consumer's inputs by *full name*: each must be found (V1)
@@ -235,15 +281,15 @@ def check_chain(names, rng, res: CaseResult):
             res.violate(f'chain with tasks {sorted(names)}: a dependant declaring every task by its full name cannot be '
                         f'constructed: {type(e).__name__}: {e}', witness={'names': names, 'via': 'construction'})
             consumer = None
-        got = set(chain.tasks) - {'zz_consumer'}
+        got = {n for n in chain.tasks if n != 'zz_consumer' and not n.endswith('zz_short')}
         if got != set(names):
             res.inconclusive.append(f'chain task names {sorted(got)} differ from intended {sorted(names)}')
             return
-        full = list(chain.tasks)
+        full = [n for n in chain.tasks if not n.endswith('zz_short')]
         ids = {}
         for n, t in chain.tasks.items():
             ids.setdefault(id(t), n)
-        if len(ids) != len(full):
+        if len({id(chain.tasks[n]) for n in full}) != len(full):
             res.inconclusive.append(f'tasks of {sorted(names)} are not distinct objects')
             return
 
